@@ -52,6 +52,12 @@ TRIGGERS = [
      [["e", 1]], ["e(1)", "e(2)"], ["math"]),
     ("inline", "{ pe(V,Y) } :- dpe(V,Y).\nh(V,S) :- g(V), S = #sum { Y : pe(V,Y) }.\nfoo(X) :- X = #sum { S,V : h(V,S) ; 2,1,unique : e(1) }.",
      [["dpe", 2], ["g", 1], ["e", 1]], ["g(1)", "g(2)", "dpe(1,2)", "dpe(2,2)", "e(1)"], ["inline"]),
+    ("inline_objective", "{ buy(P,I) } :- offer(P,I).\ntotal(P,S) :- person(P), S = #sum { C,I : buy(P,I), cost(I,C) }.\n"
+                         "#minimize { S@1,P : total(P,S) }.",
+     [["offer", 2], ["person", 1], ["cost", 2], ["e", 1]],
+     ["person(1)", "person(2)", "offer(1,1)", "offer(1,2)", "offer(2,1)", "cost(1,2)", "cost(2,3)", "e(1)"], ["inline"]),
+    ("unused_copy", "b(X,Y) :- db(X,Y), not e(X).\nc(X,Y) :- b(X,Y).\n:- c(X,X).\nd(X) :- c(X,_).",
+     [["db", 2], ["e", 1]], ["db(1,2)", "db(2,2)", "db(2,1)", "e(1)"], ["unused"]),
     ("normalize", "a :- 1 { p(X,_) : q(X) ; p(_,anon__ngo) }.\nb(AUX) :- q(AUX), 1 { p(AUX,_) }.",
      [["p", 2], ["q", 1], ["e", 1]], ["p(1,2)", "p(2,anon__ngo)", "q(1)", "q(2)", "e(1)"], []),
 ]
@@ -105,7 +111,8 @@ def jobs(tier: str):
         if not quick:
             cfg_traits.append(DEFAULT)
 
-        removable = {"unused": {("b", 2)}, "inline": {("h", 2)}, "unused_same_name": {("p", 2), ("p", 3)}}.get(name, set())
+        removable = {"unused": {("b", 2)}, "inline": {("h", 2)}, "unused_same_name": {("p", 2), ("p", 3)},
+                     "inline_objective": {("total", 2)}, "unused_copy": {("b", 2), ("c", 2)}}.get(name, set())
 
         def cfgs(i=inp, text=None):
             # everything the (attacked) source derives is an output, except what the trigger is about removing
@@ -120,6 +127,17 @@ def jobs(tier: str):
         meta = {"trigger": name}
         checks = ["semantic", "interface"]
         yield job("C07/base", prog, universe, cfgs(), checks=checks, meta=dict(meta, attack="none"))
+        if removable:
+            # the predicate the pass would remove is a DECLARED output (explicitly, and through #show + auto detection):
+            # it has to keep its name, arity and atoms
+            keep_out = [list(p) for p in sorted(removable)]
+            yield job("C07/keep", prog, universe,
+                      [config(t, inp, keep_out, orc("inout", costs=True, multiset=True)) for t in cfg_traits],
+                      checks=checks, meta=dict(meta, attack="removable predicate declared as output"))
+            shown = prog + "\n" + " ".join(f"#show {n}/{a}." for n, a in sorted(removable))
+            yield job("C07/keep", shown, universe,
+                      [config(t, "auto", "auto", orc("inout", costs=True, multiset=True)) for t in cfg_traits],
+                      checks=checks, meta=dict(meta, attack="removable predicate shown, declarations auto-detected"))
         preds_all: list = []
         vars_all: list = []
         for t in cfg_traits:
